@@ -128,28 +128,62 @@ func runRTW(side string, pk []pkt, sizes []int) (caseStr, obs string) {
 	}
 	var rawWriter *websocket.Conn
 	var reader net.Conn
-	if side == "s" {
+	if side == "S" || side == "C" {
+		// end to end: the real writer writes through the repository's wrapper of the opposite end (one
+		// WebSocket message per Write call of WritePacket), the real reader reads through the other wrapper
+		var wconn net.Conn
+		if side == "S" {
+			wconn, reader = adapter.VerifNewWSClientConn(cli), adapter.VerifNewWSServerConn(srvConn)
+		} else {
+			wconn, reader = adapter.VerifNewWSServerConn(srvConn), adapter.VerifNewWSClientConn(cli)
+		}
+		rawWriter = cli
+		go func() {
+			defer func() { recover() }()
+			wsp := stream.NewStreamProcessor(nil, wconn, context.Background())
+			for _, p := range pk {
+				tp := &packet.TransferPacket{PacketType: packet.Type(p.ty)}
+				if isCmd(p.ty) {
+					var cp packet.CommandPacket
+					if err := json.Unmarshal(p.body, &cp); err == nil {
+						tp.CommandPacket = &cp
+					} else {
+						tp.Payload = p.body
+					}
+				} else {
+					tp.Payload = p.body
+				}
+				if _, err := wsp.WritePacket(tp, p.comp, 0); err != nil {
+					break
+				}
+			}
+			time.Sleep(2 * time.Millisecond)
+			wconn.Close()
+		}()
+	} else if side == "s" {
 		rawWriter, reader = cli, adapter.VerifNewWSServerConn(srvConn)
 	} else {
 		rawWriter, reader = srvConn, adapter.VerifNewWSClientConn(cli)
 	}
-	go func() {
-		pos := 0
-		for _, s := range sizes {
-			if s <= 0 || pos >= len(wire) {
-				continue
+	if side == "s" || side == "c" {
+		go func() {
+			pos := 0
+			for _, s := range sizes {
+				if s <= 0 || pos >= len(wire) {
+					continue
+				}
+				if s > len(wire)-pos {
+					s = len(wire) - pos
+				}
+				rawWriter.WriteMessage(websocket.BinaryMessage, wire[pos:pos+s])
+				pos += s
 			}
-			if s > len(wire)-pos {
-				s = len(wire) - pos
+			if pos < len(wire) {
+				rawWriter.WriteMessage(websocket.BinaryMessage, wire[pos:])
 			}
-			rawWriter.WriteMessage(websocket.BinaryMessage, wire[pos:pos+s])
-			pos += s
-		}
-		if pos < len(wire) {
-			rawWriter.WriteMessage(websocket.BinaryMessage, wire[pos:])
-		}
-		rawWriter.WriteMessage(websocket.CloseMessage, websocket.FormatCloseMessage(websocket.CloseNormalClosure, ""))
-	}()
+			rawWriter.WriteMessage(websocket.CloseMessage, websocket.FormatCloseMessage(websocket.CloseNormalClosure, ""))
+		}()
+	}
 	res := make(chan string, 1)
 	go func() {
 		defer func() {
@@ -247,6 +281,24 @@ func genRTW(out *vc.Out, r *vc.Rand, thorough bool) {
 			n := wireLen(pk)
 			emitRTW(out, side, pk, randSizes(r, n), "random")
 		}
+	}
+	// end to end through both wrappers: the writer's own Write calls are the messages
+	e2e := 80
+	if thorough {
+		e2e = 1500
+	}
+	sizes := []int{0, 0, 1, 2, 5, 100, 1023, 1024, 1025, 4096, 4097, 40000, 70000}
+	for i := 0; i < e2e; i++ {
+		var pk []pkt
+		for j, n := 0, 1+r.Intn(6); j < n; j++ {
+			ty := vc.Pick(r, definedTypes)
+			pk = append(pk, pkt{ty, r.Intn(3) == 0, genBody(r, ty, sizes)})
+		}
+		side := "S"
+		if i%2 == 1 {
+			side = "C"
+		}
+		emitRTW(out, side, pk, nil, "end-to-end")
 	}
 }
 
